@@ -124,8 +124,8 @@ func VerifC15FileWrite() {
 // one FileSystem while opening the file takes time; each entry reaches the file as its
 // own record (no writer's line is replaced by another's through a shared buffer).
 //
-//verif:harness name=H15e-concurrent-writes tier=quick,thorough bounds="2 goroutines writing one entry each (different profiles, names of different lengths) through one FileSystem; opening the log file is a scheduling point; recycled pool buffers" reach=done maxpaths=20000 switches=0
-//verif:assume threads switch at the (slow) open of the log file and when finished; natively the log file is a FIFO so that both opens are pending together
+//verif:harness name=H15e-concurrent-writes tier=quick,thorough bounds="2 goroutines writing one entry each (different profiles, names of different lengths) through one FileSystem; opening the log file and every write call are scheduling points; recycled pool buffers" reach=done maxpaths=20000 switches=0
+//verif:assume threads switch at the (slow) open of the log file and when finished; natively the log file is a FIFO so that both opens are pending together, and interleavings of the write calls are searched for by a bounded stress run (8 writers x 150 entries)
 func VerifC15ConcurrentWrites() {
 	verifPoolMode(1)
 	path := verifSlowLogPath()
@@ -155,6 +155,10 @@ func VerifC15ConcurrentWrites() {
 		}
 	}
 	verifAssert("each-entry-logged-exactly-once-as-itself", seen[0] == 1 && seen[1] == 1)
+	// natively the write calls of concurrent writers cannot be interleaved at will: a
+	// bounded stress run looks for a torn line (the symbolic build explores the
+	// interleavings instead)
+	verifAssert("each-entry-logged-exactly-once-as-itself", !verifStressLog())
 	lines, clean := verifLogLines(path)
 	verifAssert("one-complete-line-per-entry", lines == 2 && clean)
 	verifReach("done")
